@@ -170,7 +170,7 @@ func init() {
 					if c.Str("env") != "" {
 						cfg += "+env_bitdecomp"
 					}
-					if res.Verdict != engine.Accept {
+					if !res.AcceptedHonestly() {
 						return fw.Violate("rejects_valid_proof:"+cfg+":"+c.Str("wrapper"), fmt.Sprintf("case %s: %s %s", c.ID, resStr(res), res.Msg))
 					}
 					o.Inc("accepted_" + cfg + "_" + c.Str("wrapper"))
@@ -183,7 +183,7 @@ func init() {
 					if err != nil {
 						return fw.Violate("gnark_engine_rejects_valid_proof:"+c.Str("wrapper"), fmt.Sprintf("case %s: %v", c.ID, err))
 					}
-					if res.Verdict != engine.Accept {
+					if !res.AcceptedHonestly() {
 						return fw.Violate("rejects_valid_proof:commit:"+c.Str("wrapper"), fmt.Sprintf("case %s: %s", c.ID, resStr(res)))
 					}
 					o.Inc("gnark_engine_agreements")
@@ -205,7 +205,7 @@ func init() {
 					if io, bad := inconclusiveIf(res); bad {
 						return io
 					}
-					if res.Verdict != engine.Accept {
+					if !res.AcceptedHonestly() {
 						return fw.Violate("rejects_valid_proof_sequence:"+c.Str("face"), fmt.Sprintf("case %s: %d valid proofs verified by one VerifierChip: %s %s", c.ID, len(list), resStr(res), res.Msg))
 					}
 					o.Inc("proof_sequences_accepted_" + c.Str("face"))
